@@ -258,8 +258,8 @@ M('c10d-direct-create', 'C10', 'break', RS,
   '        connp->out_tx = htp_connp_tx_create(connp);\n        if (connp->out_tx == NULL) {',
   '        connp->out_tx = htp_tx_create(connp);\n        if (connp->out_tx == NULL) {', 'C10.d')
 M('c10e-auto-destroy-skipped', 'C10', 'break', TX,
-  '    if (tx->connp->cfg->tx_auto_destroy) {\n        htp_tx_destroy(tx);\n    }',
-  '    if (tx->connp->cfg->tx_auto_destroy && tx->index < 1024) {\n        htp_tx_destroy(tx);\n    }', 'C10.e')
+  '    if (tx_auto_destroy) {\n        htp_tx_destroy(tx);\n    }',
+  '    if (tx_auto_destroy && tx->index < 1024) {\n        htp_tx_destroy(tx);\n    }', 'C10.e')
 M('c10e-previous-chain-leaked', 'C10', 'break', TX,
   '        if (tx->connp->out_decompressor != NULL) {\n            htp_tx_res_destroy_decompressors(tx->connp);\n        }\n',
   '', 'C10.e')
@@ -839,3 +839,10 @@ M('c09i-d33-request-start-status-dropped', 'C09', 'break', RQ,
 M('c09i-request-start-status-returned-directly-keep', 'C09', 'keep', RQ,
   '    htp_status_t rc = htp_tx_state_request_start(connp->in_tx);\n    if (rc != HTP_OK) return rc;\n\n    return HTP_OK;',
   '    return htp_tx_state_request_start(connp->in_tx);')
+
+# ---------------- C01.e completion callbacks may destroy the transaction (D34)
+M('c01e-d34-flag-read-after-callbacks', 'C01', 'break', TX,
+  '    if (tx_auto_destroy) {\n        htp_tx_destroy(tx);', '    if (tx->connp->cfg->tx_auto_destroy) {\n        htp_tx_destroy(tx);', 'C01.e')
+M('c01e-flag-read-into-differently-named-local-keep', 'C01', 'keep', TX, None, None, None,
+  edits=[(TX, '    int tx_auto_destroy = tx->connp->cfg->tx_auto_destroy;', '    const int destroy_after = tx->connp->cfg->tx_auto_destroy;'),
+         (TX, '    if (tx_auto_destroy) {\n        htp_tx_destroy(tx);', '    if (destroy_after != 0) {\n        htp_tx_destroy(tx);')])
